@@ -90,6 +90,13 @@ def universe():
     add(M([(S('str', 'a'), S('int', '1')), (S('str', 'a'), S('int', '2'))]))
     add(M([(S('int', '1'), S('int', '1'))]))
     add(M([(S('null', 'a'), S('int', '1'))]))
+    for tg in ('null', 'bool', 'int', 'float', 'timestamp', '!A', '!Unknown'):
+        for key in ('a', 'b'):
+            add(M([(S(tg, key), S('int', '1'))]))
+            add(M([(S(tg, key), S('int', '1')), (S('str', 'b' if key == 'a' else 'a'), S('str', 'x'))]))
+    add(M([(Q([S('str', 'a')]), S('int', '1'))]))
+    add(M([(S('str', 'a'), S('int', '1')), (S('str', 'b'), S('int', '1')), (S('str', 'a'), S('str', 'x'))]))
+    add(M([(S('str', 'a'), S('str', 'x')), (S('str', 'a'), S('int', '1'))]))
     return out
 
 
@@ -135,7 +142,7 @@ def predicate(case, helper, args, n):
     if has_dup(n, name):
         return None
     if helper == 'require_attribute':
-        vs = [b for a, b in n[2] if a[2] == name]
+        vs = [b for a, b in n[2] if a[0] == 's' and a[1] == P + 'str' and a[2] == name]
         if not vs:
             return False
         if len(args) == 1:
@@ -208,7 +215,17 @@ def run_unit(unit, tier):
         res.transitions += 1
         want = predicate(case, helper, args, n)
         if want is None:
+            # outside the stated domain (the attribute is written twice): either answer is accepted, but the
+            # helper still reports with RecognitionError only and leaves the node alone
             res.hist['outside-domain'] += 1
+            out, before, after = call(case, un, helper, args, n)
+            res.traces += 1
+            payload = {'helper': helper, 'args': list(args), 'node': n}
+            if before != after:
+                res.violation('C16:%s:modifies-node' % helper, '%s%r on %s modified the node' % (helper, args, docs_show(n)), payload)
+            if not isinstance(out, str):
+                res.violation('C16:%s:raises-%s' % (helper, type(out).__name__),
+                              '%s%r on %s raised %s: %s' % (helper, args, docs_show(n), type(out).__name__, out), payload)
             continue
         out, before, after = call(case, un, helper, args, n)
         res.traces += 1
